@@ -5,19 +5,27 @@ from concurrent.futures import ThreadPoolExecutor
 from harness import core, tlaval
 
 
-def batch_verdicts(ctx, module, recs, chunk=4000, name=None, extra_env=None, timeout=1500):
-    """Validate `recs` with the record-trace specification `module`.  Returns
-    (verdicts {index: [clause,...]}, divergences {index: what}, totals list of the CHECKED tuples).
-    Indices are 0-based positions in `recs`.  Raises MachineryError if TLC did not
-    acknowledge every record."""
+def batch_verdicts(ctx, module, recs, chunk=4000, name=None, extra_env=None, timeout=1500, par=3):
+    """Validate `recs` with the record-trace specification `module` (chunks of `chunk` records, `par` TLC
+    processes at a time).  Returns (verdicts {index: [clause,...]}, divergences {index: what}, totals = list of the
+    CHECKED tuples).  Indices are 0-based positions in `recs`.  Raises MachineryError if TLC did not
+    acknowledge every record or if the specification reports a SPECBUG."""
     verdicts, diverge, totals = {}, {}, []
+    parts = []
     for base in range(0, len(recs), chunk):
         part = recs[base:base + chunk]
-        path = "%s/%s_%d.json" % (ctx.tmp, module, len(ctx.cov["tlc_runs"]))
+        path = "%s/%s_%d_%d.json" % (ctx.tmp, module, len(ctx.cov["tlc_runs"]), base)
         core.write_json(path, part)
-        env = {"TRACE_FILE": path}
+        # recursive operators over sequences of ~64 elements need more than the default thread stack
+        env = {"TRACE_FILE": path, "JAVA_TOOL_OPTIONS": "-Xss64m"}
         env.update(extra_env or {})
-        r = core.tlc(module, workers=1, env=env, timeout=timeout)
+        parts.append((base, part, env))
+
+    def one(p):
+        return core.tlc(module, workers=1, env=p[2], timeout=timeout)
+    with ThreadPoolExecutor(max_workers=par) as ex:
+        results = list(ex.map(one, parts))
+    for (base, part, _env), r in zip(parts, results):
         ctx.add_tlc(name or module, r, count_states=False)
         chk = core.tla_tuples(r.out, "CHECKED")
         if len(chk) != 1 or int(chk[0][0]) != len(part):
